@@ -1103,7 +1103,14 @@ func vfDataOnly(evs []vfEv) []vfEv {
 
 // vfMatchPrefixEvents: model vs actual where partial (unfinished) events of
 // the model are optional (who emits them depends on which side ended the stream).
+// vfPartialRequired (C14H2Bodies): a body that stops inside an envelope must show in the trace as a final partial
+// data event, however the stream ended. (C15 itself is about attribution and leaves that event optional.)
+var vfPartialRequired bool
+
 func vfMatchPrefixEvents(model, actual []vfEv, endedNormally bool) string {
+	if vfPartialRequired {
+		return vfMatchEvents(model, actual)
+	}
 	for i := range model {
 		partial := !model[i].HasEnv || model[i].Len != uint64(model[i].Declared)
 		if (model[i].Kind == "req-data" || model[i].Kind == "resp-data") && partial && model[i].HasEnv {
